@@ -37,7 +37,7 @@ CLAIMED = {
     design="9/C03"),
  "C12": dict(
     technique="contract-based deductive verification: PyVC VCs from the live transceiver.py/ctrl_if_trx.py/fake_trx.py; loop invariant of power_event_handler over [self, *children] with a child list of symbolic length; clock links abstracted to a duplicate-free membership array; PWR invariant lemma over the handler's contract; z3",
-    text="Unbounded proof over the number of children, arbitrary prior power/hopping/queue state, both power directions, with/without own clock and running/stopped generator; port plan proved for symbolic base port and child index. Application wiring is a bounded stand-in (existing lists 0..2), labelled as such.",
+    text="Unbounded proof over the number of children, arbitrary prior power/hopping/queue state, both power directions, with/without own clock and running/stopped generator; port plan proved for symbolic base port and child index. Application wiring (append_trx / append_child_trx) proved against TRXList's find/add contracts for any number of existing transceivers; the concrete-list runs (0..2) remain as additional, labelled bounded cases.",
     note="Trusted: PyVC builtin models; CLCKGen.start/stop thread semantics; socket bind modelled as recording the address; children pairwise distinct.",
     design="9/C12"),
  "C09": dict(
